@@ -181,8 +181,16 @@ def _emptied(prop, case, f):
     # so append / overwrite / write_row_groups with the original columns are refused
     if prop == "C07":
         # the same state reached by a first write whose every row had a missing partition key (such rows are dropped): no data file
-        return (f.get("kind") == "append_raised" and f.get("exc") == "ValueError" and f.get("existing_data_files") == 0 and bool(f.get("partition_on"))
-                and f.get("msg", "").startswith("When appending, partitioning columns must match"))
+        if not (f.get("kind") == "append_raised" and f.get("exc") == "ValueError" and f.get("existing_data_files") == 0 and bool(f.get("partition_on"))):
+            return False
+        m = f.get("msg", "")
+        if m.startswith("When appending, partitioning columns must match"):
+            return True
+        # the same refusal met through a kept handle (write_row_groups compares column names): exactly the partition columns are "only in new data"
+        if f.get("where") == "api.py:write_row_groups" and m.startswith("Column names of new data are") and "{" in m:
+            named = set(m.split("{", 1)[1].split("}", 1)[0].replace("'", "").replace(" ", "").split(","))
+            return named == set(f["partition_on"])
+        return False
     if f.get("kind") != "operation_raised" or f.get("exc") != "ValueError" or f.get("row_groups_before") != 0 or not f.get("nparts"):
         return False
     m = f.get("msg", "")
